@@ -34,7 +34,7 @@ detected=""
 if [ "$res_suite" = pass ] && [ "$res_demo_with" = fails ] && [ "$res_demo_without" = pass ]; then
   git -C /repo apply $out/$PATCH_FILE
   for c in $checks; do
-    (cd /verif && ./check $c quick >$W/check-$c.log 2>&1; echo "check $c exit=$? : $(grep -c '^VIOLATION' $W/check-$c.log) violation lines; $(grep '^VIOLATION' $W/check-$c.log | head -2 | tr '\n' ' ')")
+    (cd /verif && VERIF_EVIDENCE_DIR=$W/evidence ./check $c quick >$W/check-$c.log 2>&1; echo "check $c exit=$? : $(grep -c '^VIOLATION' $W/check-$c.log) violation lines; $(grep '^VIOLATION' $W/check-$c.log | head -2 | tr '\n' ' ')")
     if grep -q '^VIOLATION' $W/check-$c.log; then detected="$detected $c"; cp $(grep '^VIOLATION' $W/check-$c.log | head -1 | sed 's/.*replay=\([^ ]*\).*/\1/') /verif/seeded/$name/replay-$c.json 2>/dev/null; fi
   done
   git -C /repo checkout -- .
